@@ -6,8 +6,8 @@
                        receive on channel 1 (returns when the writer has closed it); emit Return.
    process 1 = writer: loop: receive on channel 0; on an item: lat internal steps, emit Write x;
                        on close: close channel 1; halt.
-   channel 0 has any capacity >= 1 (Go's unbuffered channel is the capacity-1 case in which
-   every send is immediately followed by its receive), channel 1 is only ever closed. *)
+   channel 0 has any capacity >= 1 and may be unbuffered (sync0 = true: after a send main waits
+   until the item has been taken, Net.OAwait), channel 1 is only ever closed. *)
 From Coq Require Import List Arith Lia Bool.
 Import ListNotations.
 From NTRIP Require Import Net.
@@ -19,6 +19,7 @@ Section PC.
   Variable lat : nat.         (* internal steps the writer needs per item (its latency) *)
   Variable passthrough : bool. (* main also writes each item itself before handing it on (rtcmlogger's stdout) *)
   Variable wait : bool.       (* main waits for the writer before returning (false = the unrepaired code) *)
+  Variable sync0 : bool.      (* the item channel is unbuffered in the Go code: a send completes only when the item has been taken *)
 
   Inductive ev := EPass (v : V) | EWrite (v : V) | EReturn | ETau.
 
@@ -26,13 +27,15 @@ Section PC.
   | MS (r : list V)            (* main: items still to hand over *)
   | MS' (x : V) (r : list V)   (* main: x passed through, about to be sent *)
   | MWait | MRet | MDone
-  | WLoop | WBusy (v : V) (n : nat) | WClose | WHalt.
+  | WLoop | WBusy (v : V) (n : nat) | WClose | WHalt
+  | MAw (r : list V).          (* main: item sent on the unbuffered channel, waiting until it has been taken *)
 
   Definition prog (s : st) : op st V ev :=
     match s with
     | MS [] => OClose _ _ _ 0 (if wait then MWait else MRet)
-    | MS (x :: r) => if passthrough then OEmit _ _ _ (EPass x) (MS' x r) else OSend _ _ _ 0 x (MS r)
-    | MS' x r => OSend _ _ _ 0 x (MS r)
+    | MS (x :: r) => if passthrough then OEmit _ _ _ (EPass x) (MS' x r) else OSend _ _ _ 0 x (if sync0 then MAw r else MS r)
+    | MS' x r => OSend _ _ _ 0 x (if sync0 then MAw r else MS r)
+    | MAw r => OAwait _ _ _ 0 (MS r)
     | MWait => ORecv _ _ _ 1 (fun _ => MRet)
     | MRet => OEmit _ _ _ EReturn MDone
     | MDone => OHalt _ _ _
@@ -71,9 +74,9 @@ Section PC.
   (* ---------- the invariant of the repaired protocol ---------- *)
 
   Definition inflight (w : st) : list V := match w with WBusy v _ => [v] | _ => [] end.
-  Definition pending (m : st) : list V := match m with MS r => r | MS' x r => x :: r | _ => [] end.
+  Definition pending (m : st) : list V := match m with MS r => r | MS' x r => x :: r | MAw r => r | _ => [] end.
   Definition handed (m : st) : list V := match m with MS' x _ => [x] | _ => [] end.
-  Definition is_main (m : st) : bool := match m with MS _ | MS' _ _ | MWait | MRet | MDone => true | _ => false end.
+  Definition is_main (m : st) : bool := match m with MS _ | MS' _ _ | MWait | MRet | MDone | MAw _ => true | _ => false end.
   Definition is_writer (w : st) : bool := match w with WLoop | WBusy _ _ | WClose | WHalt => true | _ => false end.
 
   Definition Inv (cap0 : nat) (xs : list V) (c : config) : Prop :=
@@ -127,7 +130,7 @@ Section PC.
     destruct p as [|[|p]].
     - (* main steps *)
       unfold Net.pstep in Hstep. cbn [procs length Nat.ltb Nat.leb negb nth] in Hstep.
-      destruct m as [r|x r| | | | | | | ]; try discriminate Hm; cbn [prog] in Hstep.
+      destruct m as [r|x r| | | | | | | |r]; try discriminate Hm; cbn [prog] in Hstep.
       + (* MS r *)
         destruct r as [|x r].
         * (* close channel 0 *)
@@ -151,17 +154,17 @@ Section PC.
              destruct cl0; [cbn in Hstep; discriminate|].
              match type of Hstep with (if ?c then _ else _) = _ => destruct c; [|discriminate] end. injection Hstep as <-.
              rewrite ?upd0, ?upd1. cbn [buf cap closed].
-             exists (MS r), w, (b0 ++ [x]), false, cl1, om, ow. split; [reflexivity|].
+             exists (if sync0 then MAw r else MS r), w, (b0 ++ [x]), false, cl1, om, ow. split; [reflexivity|].
              cbn [pending handed] in *. rewrite Hxs, <- ?app_assoc. cbn [app].
-             solve_side.
+             destruct sync0; cbn [pending handed is_main]; solve_side.
       + (* MS' x r : send x *)
         cbn -[Nat.ltb Nat.leb] in Hstep; change (0 <? 2) with true in Hstep; change (1 <? 2) with true in Hstep; cbn [andb] in Hstep.
         destruct cl0; [cbn in Hstep; discriminate|].
         match type of Hstep with (if ?c then _ else _) = _ => destruct c; [|discriminate] end. injection Hstep as <-.
         rewrite ?upd0, ?upd1. cbn [buf cap closed].
-        exists (MS r), w, (b0 ++ [x]), false, cl1, om, ow. split; [reflexivity|].
+        exists (if sync0 then MAw r else MS r), w, (b0 ++ [x]), false, cl1, om, ow. split; [reflexivity|].
         cbn [pending handed] in *. rewrite Hpt in *. rewrite Hxs, Hps, <- ?app_assoc. cbn [app]. rewrite ?app_nil_r.
-        solve_side.
+        destruct sync0; cbn [pending handed is_main]; solve_side.
       + (* MWait : receive on channel 1 *)
         cbn -[Nat.ltb Nat.leb] in Hstep; change (0 <? 2) with true in Hstep; change (1 <? 2) with true in Hstep; cbn [andb] in Hstep.
         destruct cl1; [|cbn in Hstep; discriminate]. cbn in Hstep. injection Hstep as <-. rewrite ?upd0, ?upd1.
@@ -173,9 +176,14 @@ Section PC.
         cbn [pending handed] in *. rewrite passes_app, returned_app. cbn [passes flat_map returned existsb orb]. rewrite ?app_nil_r, ?orb_true_r.
         solve_side.
       + (* MDone: halted *) discriminate.
+      + (* MAw r : the item has been taken *)
+        cbn -[Nat.ltb Nat.leb] in Hstep; change (0 <? 2) with true in Hstep; cbn [andb] in Hstep.
+        destruct b0 as [|v b0]; [|cbn in Hstep; discriminate]. cbn in Hstep. injection Hstep as <-. rewrite ?upd0, ?upd1.
+        exists (MS r), w, [], cl0, cl1, om, ow. split; [reflexivity|].
+        cbn [pending handed is_main] in *. solve_side.
     - (* writer steps *)
       unfold Net.pstep in Hstep. cbn [procs length Nat.ltb Nat.leb negb nth] in Hstep.
-      destruct w as [| | | | |  |v n| | ]; try discriminate Hw; cbn [prog] in Hstep.
+      destruct w as [| | | | |  |v n| | |]; try discriminate Hw; cbn [prog] in Hstep.
       + (* WLoop : receive on channel 0 *)
         cbn -[Nat.ltb Nat.leb] in Hstep; change (0 <? 2) with true in Hstep; change (1 <? 2) with true in Hstep; cbn [andb] in Hstep.
         destruct b0 as [|v b0].
@@ -254,7 +262,7 @@ Section PC.
     { intros p c' Hp. apply (Hf c'). exists p. exact Hp. }
     (* the writer is never blocked unless it has halted or waits on an empty open channel *)
     assert (Hwriter : w = WHalt \/ (w = WLoop /\ b0 = [] /\ cl0 = false)).
-    { destruct w as [| | | | |  |v n| | ]; try discriminate Hw.
+    { destruct w as [| | | | |  |v n| | |]; try discriminate Hw.
       - right. destruct b0 as [|v b0].
         + destruct cl0; [|repeat split; reflexivity]. exfalso. eapply (Hno 1). unfold Net.pstep. cbn. reflexivity.
         + exfalso. eapply (Hno 1). unfold Net.pstep. cbn. reflexivity.
@@ -262,7 +270,7 @@ Section PC.
       - exfalso. assert (cl1 = false) by (destruct cl1; [|reflexivity]; assert (WClose = WHalt) by (apply H1; reflexivity); discriminate).
         subst cl1. eapply (Hno 1). unfold Net.pstep. cbn. reflexivity.
       - left. reflexivity. }
-    destruct m as [r|x r| | | | | | | ]; try discriminate Hm.
+    destruct m as [r|x r| | | | | | | |r]; try discriminate Hm.
     - (* MS r can always move *)
       exfalso. destruct r as [|x r].
       + assert (cl0 = false) by (destruct cl0; [|reflexivity]; assert (C : MS [] = MWait \/ MS [] = MRet \/ MS [] = MDone) by (apply H0; reflexivity); destruct C as [C|[C|C]]; discriminate).
@@ -283,12 +291,16 @@ Section PC.
     - exfalso. eapply (Hno 0). unfold Net.pstep. cbn. reflexivity.
     - split; [reflexivity|]. destruct Hwriter as [->|(-> & -> & ->)]; [reflexivity|].
       exfalso. assert (C : false = true) by (apply H0; right; right; reflexivity). discriminate.
+    - (* MAw r: the item is taken sooner or later *)
+      exfalso. destruct Hwriter as [->|(-> & -> & ->)].
+      + destruct (Hwc (or_intror eq_refl)) as [_ C]. assert (D : MAw r = MWait \/ MAw r = MRet \/ MAw r = MDone) by (apply H0; exact C). destruct D as [D|[D|D]]; discriminate.
+      + eapply (Hno 0). unfold Net.pstep. cbn. reflexivity.
   Qed.
 End PC.
 
 (* the unrepaired protocol (no wait): there is a schedule on which main has returned while the
    writer has written nothing - the defect that was repaired in displayrtcm3, rtcmfilter and rtcmlogger *)
 Example unrepaired_witness :
-  exists c, run (st nat) nat (ev nat) (prog nat 0 false false) sender receiver (MDone nat) (init nat 1 [7]) [0; 0; 0] = Some c /\
+  exists c, run (st nat) nat (ev nat) (prog nat 0 false false false) sender receiver (MDone nat) (init nat 1 [7]) [0; 0; 0] = Some c /\
             returned nat (main_out nat c) = true /\ writes nat (writer_out nat c) = [].
 Proof. eexists. split; [vm_compute; reflexivity|]. split; reflexivity. Qed.
